@@ -377,11 +377,13 @@ impl PrettyPrinter {
             if no_padding {
                 unpadded
             } else {
-                format!(
-                    "{:width$}",
-                    unpadded,
-                    width = column_name.len() + 3 + self.column_widths[column_name]
-                )
+                // Pad by hand: `format!("{:width$}")` panics for widths above u16::MAX, which
+                // a single over-long value is enough to reach.
+                let width = column_name.len() + 3 + self.column_widths[column_name];
+                let missing = width.saturating_sub(unpadded.chars().count());
+                let mut padded = unpadded;
+                padded.extend(std::iter::repeat(' ').take(missing));
+                padded
             }
         });
 
